@@ -1,6 +1,6 @@
 (* C17 - an I/O error in the middle of an operation leaves the store intact.  Statements only. *)
 From Coq Require Import List ZArith NArith.
-From DOS Require Import Base Store StoreProofs StoreLemmas.
+From DOS Require Import Base Store StoreProofs StoreLemmas Programs ProgramsProofs PackProofs MaintProofs RepackProofs AddPackProofs ImportProofs FaultProofs.
 Import ListNotations.
 
 Section C17.
@@ -24,7 +24,86 @@ Proof. exact (stored_sound H inflate). Qed.
 (* an abandoned transaction (rollback / session closed on error) changes nothing on disk *)
 Theorem C17_rollback_is_noop : forall w l, fst (apply_ev (w, l) ERollback) = w.
 Proof. reflexivity. Qed.
+(* ---- program level: an I/O error at ANY call of the operation, followed by ANY sequence of handler events (handles closed - their
+   buffers reach the file -, sandbox file removed, session rolled back), for ALL inputs: the invariant holds and everything stored
+   before the operation started reads back byte for byte ---- *)
+Hypothesis H_inj : forall a b, H a = H b -> a = b.
+Notation safe_after w s tr := (Inv H inflate (fst (run_events s tr)) /\
+                               (forall k c, stored inflate w k = Some c -> stored inflate (fst (run_events s tr)) k = Some c)).
+
+Theorem C17_fault_in_add_loose : forall w l n chunks m hs,
+  Inv H inflate w -> forallb handler_ev hs = true ->
+  safe_after w (w, l) (firstn m (p_add_loose H w n chunks) ++ hs).
+Proof. intros w l n chunks m hs HI Hh. exact (fault_add_loose_safe H inflate H_inj w l n chunks HI m hs Hh). Qed.
+
+Theorem C17_fault_in_pack : forall w l id objs fs clean m hs,
+  Inv H inflate w -> pending l = [] ->
+  Forall (obj_ok inflate w) objs -> NoDup (map okey objs) -> (forall o, In o objs -> ~ In (okey o) (map rkey (db w))) ->
+  forallb handler_ev hs = true ->
+  safe_after w (w, l) (firstn m (p_pack_one w id objs fs clean) ++ hs).
+Proof.
+  intros w l id objs fs clean m hs HI Hp Ho Hn Hf Hh.
+  exact (fault_Good_safe H inflate H_inj w fs _ _ HI (pack_one_always H inflate H_inj w l id objs fs clean HI Hp Ho Hn Hf) m hs Hh).
+Qed.
+
+Theorem C17_fault_in_clean : forall w l vacuum order m hs,
+  Inv H inflate w -> pending l = [] -> forallb handler_ev hs = true ->
+  safe_after w (w, l) (firstn m (p_clean w vacuum order) ++ hs).
+Proof.
+  intros w l vacuum order m hs HI Hp Hh.
+  exact (fault_Good_safe H inflate H_inj w false _ _ HI (clean_always H inflate w l false vacuum order HI Hp) m hs Hh).
+Qed.
+
+Theorem C17_fault_in_delete : forall w l ks m hs,
+  Inv H inflate w -> pending l = [] -> forallb handler_ev hs = true ->
+  Inv H inflate (fst (run_events (w, l) (firstn m (p_delete w ks) ++ hs))) /\
+  (forall k c, ~ In k ks -> stored inflate w k = Some c -> stored inflate (fst (run_events (w, l) (firstn m (p_delete w ks) ++ hs))) k = Some c).
+Proof.
+  intros w l ks m hs HI Hp Hh.
+  exact (fault_anywhere (KeepOthers H inflate w ks) (w, l) _ (fun a b A K => KeepOthers_appended H inflate w ks a b A K)
+           (delete_always H inflate w l ks HI Hp) m hs Hh).
+Qed.
+
+Theorem C17_fault_in_repack : forall w l id objs m hs,
+  Inv H inflate w -> pending l = [] -> id <> REPACK -> get_pack w REPACK = None ->
+  Forall (robj_ok inflate w id) objs ->
+  (forall r, In r (db w) -> rpack r = id -> In (rkey r) (map okey objs)) ->
+  rows_of_pack (db w) id <> [] ->
+  forallb handler_ev hs = true ->
+  safe_after w (w, l) (firstn m (p_repack_one w id objs) ++ hs).
+Proof.
+  intros w l id objs m hs HI Hp Hid Hr Ho Hc Hne Hh.
+  exact (fault_Good_safe H inflate H_inj w false _ _ HI (repack_always H inflate H_inj w id objs HI Hid Hr Ho Hc l false Hp Hne) m hs Hh).
+Qed.
+
+Theorem C17_fault_in_add_to_pack : forall w l id objs nh twice fs m hs,
+  Inv H inflate w -> pending l = [] -> Forall (aobj_ok H inflate) objs -> forallb handler_ev hs = true ->
+  safe_after w (w, l) (firstn m (p_add_to_pack w id objs nh twice fs) ++ hs).
+Proof.
+  intros w l id objs nh twice fs m hs HI Hp Ho Hh.
+  exact (fault_Good_safe H inflate H_inj w fs _ _ HI (add_to_pack_always H inflate H_inj w l id objs nh twice fs HI Hp Ho) m hs Hh).
+Qed.
+
+Theorem C17_fault_in_import : forall w l bs nh twice fs m hs,
+  Inv H inflate w -> pending l = [] -> Forall (fun b => Forall (aobj_ok H inflate) (snd b)) bs -> forallb handler_ev hs = true ->
+  safe_after w (w, l) (firstn m (p_import w nh twice fs bs) ++ hs).
+Proof.
+  intros w l bs nh twice fs m hs HI Hp Ho Hh.
+  exact (fault_Good_safe H inflate H_inj w fs _ _ HI (import_always H inflate H_inj w l bs nh twice fs HI Hp Ho) m hs Hh).
+Qed.
+
+(* the handler events themselves, from any state: they can only append unsynced bytes to packs *)
+Theorem C17_handlers_only_append : forall hs s, forallb handler_ev hs = true -> appended (fst s) (fst (run_events s hs)).
+Proof. exact handlers_appended. Qed.
 End C17.
 Print Assumptions C17_fault_trace_monitor.
 Print Assumptions C17_no_wrong_bytes.
 Print Assumptions C17_rollback_is_noop.
+Print Assumptions C17_fault_in_add_loose.
+Print Assumptions C17_fault_in_pack.
+Print Assumptions C17_fault_in_clean.
+Print Assumptions C17_fault_in_delete.
+Print Assumptions C17_fault_in_repack.
+Print Assumptions C17_fault_in_add_to_pack.
+Print Assumptions C17_fault_in_import.
+Print Assumptions C17_handlers_only_append.
